@@ -1,6 +1,7 @@
 //! Shared models: command specification, generators, observation.
 
 pub mod argv;
+pub mod conv;
 pub mod gen;
 pub mod observe;
 pub mod spec;
